@@ -861,6 +861,21 @@ class SArr:
     def __len__(self):
         return self.a.shape[0]
 
+    @property
+    def size(self):
+        return int(self.a.size)
+
+    @property
+    def ndim(self):
+        return self.a.ndim
+
+    @property
+    def dtype(self):
+        return onp.dtype('int64')
+
+    def ravel(self):
+        return SArr(self.a.reshape(-1))
+
     def _ew(self, o):
         out = onp.empty(self.a.shape, dtype=object)
         of, xf = out.reshape(-1), self.a.reshape(-1)
